@@ -204,7 +204,7 @@ KNOWN = {
 def plan(tier):
     if tier == "quick":
         return [{"part": "restart", "shards": 16, "budget": {"n_examples": 100}}]
-    return [{"part": "restart", "shards": 16, "budget": {"n_examples": 500}}]
+    return [{"part": "restart", "shards": 16, "budget": {"n_examples": 3000}}]
 
 
 def run_part(part, seed, shard, nshards, budget):
